@@ -89,10 +89,6 @@ def run_gzip(ctx, behs, what, env=None, timeout=800):
     r = ctx.gotest("proxy/gzip", ["proxy/gzip/c17_test.go"], "^TestVerifC17$", env=e, race=True, timeout=timeout)
     if not ctx.need_go_ok(r, what):
         return None
-    orc = r.of_kind("oracle")
-    if orc:
-        ctx.inconclusive("%s: harness plumbing trouble (%d): %s" % (what, len(orc), orc[0].get("msg", "")[:600]))
-        return None
     return r
 
 
@@ -100,11 +96,16 @@ def run_proxy(ctx, behs, what, timeout=600):
     r = ctx.gotest("proxy", ["proxy/c17_test.go"], "^TestVerifC17Proxy$", env={"VERIF_IN": behs}, race=False, timeout=timeout)
     if not ctx.need_go_ok(r, what):
         return None
+    return r
+
+
+def plumbing(ctx, r, what):
+    """harness-side trouble (a request that got no response without a recorded panic of the handler,
+    a lockstep partner that never arrived) makes the run inconclusive; it is looked at AFTER the
+    failures and race reports, which are verdicts on what the real code did"""
     orc = r.of_kind("oracle")
     if orc:
         ctx.inconclusive("%s: harness plumbing trouble (%d): %s" % (what, len(orc), orc[0].get("msg", "")[:600]))
-        return None
-    return r
 
 
 def races(ctx, r, sub):
@@ -170,6 +171,7 @@ def run(ctx):
               rule="one behaviour per transition TLC examined (shortest interleaving to the source state + one op), a seeded content-selected share of them executed; non-trivial = response delivered compressed after >= 2 Write ops")
     ctx.take_failures(r, "gzip")
     races(ctx, r, "gzip")
+    plumbing(ctx, r, "C17 replay")
 
     # 4. through the real HTTPProxy (upstream performs the script)
     px = os.path.join(ctx.tmp, "c17.proxy")
@@ -184,6 +186,7 @@ def run(ctx):
     ctx.cover("proxy", traces_validated_against_impl=s["ran"], evaluations=s["ran"], samples=s.get("samples") or [])
     ctx.take_failures(r, "proxy")
     races(ctx, r, "proxy")
+    plumbing(ctx, r, "C17 through HTTPProxy")
 
     selftest(ctx, one)
 
@@ -229,3 +232,4 @@ def replay(ctx, rp):
         return
     ctx.cover(evaluations=1)
     ctx.take_failures(r, sub)
+    plumbing(ctx, r, "C17 replay")
